@@ -200,6 +200,36 @@ func runC18(c *Ctx, r *Run) {
 		}
 	}
 	if m.cmd == nil {
+		// the worker as a method of the pool: the command channel is the one it receives from
+		allInstrs(m.worker, func(in ssa.Instruction) {
+			var cv ssa.Value
+			switch x := in.(type) {
+			case *ssa.UnOp:
+				if x.Op == token.ARROW {
+					cv = x.X
+				}
+			case *ssa.Range:
+				cv = x.X
+			case *ssa.Select:
+				for _, st := range x.States {
+					if st.Dir == types.RecvOnly {
+						cv = st.Chan
+					}
+				}
+			}
+			if cv == nil || m.cmd != nil {
+				return
+			}
+			if ch, ok := cv.Type().Underlying().(*types.Chan); ok {
+				if n, ok := ch.Elem().(*types.Named); ok {
+					if st, ok := n.Underlying().(*types.Struct); ok {
+						m.cmd, m.st, m.cmdChanT = n, st, cv.Type()
+					}
+				}
+			}
+		})
+	}
+	if m.cmd == nil {
 		r.Unresolved("SYNC-0", "command struct (element type of the worker's channel parameter)")
 		return
 	}
@@ -488,6 +518,26 @@ func runC18(c *Ctx, r *Run) {
 		}
 		if n := namedOf(f.Signature.Recv().Type()); n == nil || !m.hasCmdChanField(n) {
 			continue
+		}
+		// an unexported method that is only ever started on a pool just allocated (the worker as a method, run by the
+		// constructor) cannot see the nil pool of the API
+		if o := f.Object(); o != nil && !o.Exported() {
+			sites, fresh := 0, 0
+			for _, g := range fns {
+				allInstrs(g, func(in ssa.Instruction) {
+					ci, isCI := in.(ssa.CallInstruction)
+					if !isCI || ci.Common().StaticCallee() != f || len(ci.Common().Args) == 0 {
+						return
+					}
+					sites++
+					if _, isAlloc := ci.Common().Args[0].(*ssa.Alloc); isAlloc {
+						fresh++
+					}
+				})
+			}
+			if sites > 0 && sites == fresh {
+				continue
+			}
 		}
 		m.checkNilPool(f)
 	}
